@@ -4,7 +4,7 @@ the ch_* helpers, which fork under minisym when the character is a proxy).
 
 Language (the "supported SMILES language" of C03): organic-subset atoms B C N O P S F Cl Br I, aromatic b c n o p s,
 bracket atoms [isotope? symbol chirality? Hcount? charge? map?] with isotope 1-999, H / H1-H4, the charge spellings
-+ ++ +++ ++++ +1..+4 (and minus), map :0-9999, chirality @ / @@; bonds - = # : ~ / \\ ; branches; ring closures
++ ++ +++ ++++ +1..+4 (and minus), map :digits, chirality @ / @@; bonds - = # : ~ / \\ ; branches; ring closures
 1-9 and %10-%99 with optional bond symbol; dot.  Anything else -> RefReject.
 """
 
@@ -262,8 +262,6 @@ def _parse_bracket(s, pos):
             amap = amap * 10 + ch_digit(peek())
             nd += 1
             pos += 1
-            if nd > 4:
-                raise RefReject('map too long')
         if nd == 0:
             raise RefReject('empty map')
     if peek() is None or not ch_eq(peek(), ']'):
